@@ -249,7 +249,8 @@ def gen_ecp(rng, lmax=None, gaps=False):
         ams.remove(rng.choice(ams[1:-1]))
     pots = []
     for l in ams:
-        n = rng.randint(1, 4)
+        # mostly short potentials; sometimes one with nine to twelve terms (def2 iodine / xenon have ten)
+        n = rng.randint(1, 4) if rng.random() < 0.85 else rng.randint(9, 12)
         pots.append({'ecp_type': 'scalar_ecp', 'angular_momentum': [l],
                      'r_exponents': [rng.choice([0, 1, 2]) for _ in range(n)],
                      'gaussian_exponents': [fmt_num(rng, rng.randint(2, 8), rng.randint(-1, 3)) for _ in range(n)],
